@@ -56,3 +56,7 @@ impl<T, const N: usize> ArrayVec<T, N> {
     { unimplemented!() }
     pub broadcast axiom fn axiom_cap(&self) ensures #[trigger] self@.len() <= N;
 }
+impl<A: ArrItem> Default for SmallVec<A> {
+    #[verifier::external_body]
+    fn default() -> (r: Self) ensures r@ == Seq::<A::Item>::empty() { unimplemented!() }
+}
